@@ -388,14 +388,22 @@ class StmtMixin(CallMixin):
         self.assume(n >= 0)
         iname, sname = 'loop_i', 'loop_seq'
         saved_i, saved_s = self.st.env.get(iname), self.st.env.get(sname)
+        if not hasattr(self, 'loop_old_stack'):
+            self.loop_old_stack = []
+        self.loop_old_stack.append(self.st.snapshot())
+        depth_los = len(self.loop_old_stack)
         self.st.env[iname] = mk_int(0)
         self.st.env[sname] = src
+        self.st.env['loop_i%d' % ordinal] = mk_int(0)       # nested loops: the outer loop's index/sequence stay visible by ordinal
+        self.st.env['loop_seq%d' % ordinal] = src
         self.check_inv(L, 'entry', ordinal)
         self.havoc_for_loop(s.body, L)
         i = z3.Int(fresh_name('loop_i'))
         self.assume(z3.And(0 <= i, i <= n))
         self.st.env[iname] = mk_int(i)
         self.st.env[sname] = src
+        self.st.env['loop_i%d' % ordinal] = mk_int(i)
+        self.st.env['loop_seq%d' % ordinal] = src
         self.check_inv(L, 'assume', ordinal, assume_only=True)
         if self.choice([i < n, i == n], 'for#%d' % ordinal) == 0:
             self.assign(s.target, self.list_at(src, i))
@@ -406,13 +414,20 @@ class StmtMixin(CallMixin):
             except ContinueSig:
                 pass
             except BreakSig:
+                del self.loop_old_stack[depth_los - 1:]
                 self._restore_loop_vars(iname, sname, saved_i, saved_s)
                 return
+            except BaseException:
+                del self.loop_old_stack[depth_los - 1:]
+                raise
             self.st.env[iname] = mk_int(i + 1)
             self.st.env[sname] = src
+            self.st.env['loop_i%d' % ordinal] = mk_int(i + 1)
             self.check_inv(L, 'preserved', ordinal)
             self.check_frame('loop#%d' % ordinal)
             raise DeadPath('loop body done')
+        self.st.env['loop_i%d' % ordinal] = mk_int(n)
+        del self.loop_old_stack[depth_los - 1:]
         self._restore_loop_vars(iname, sname, saved_i, saved_s)
 
     def _restore_loop_vars(self, iname, sname, saved_i, saved_s):
@@ -427,6 +442,16 @@ class StmtMixin(CallMixin):
             raise Unsupported('while-else')
         ordinal = self.loop_ordinal(s)
         L = self.C.loops.get(ordinal, {})
+        if not hasattr(self, 'loop_old_stack'):
+            self.loop_old_stack = []
+        self.loop_old_stack.append(self.st.snapshot())
+        depth_los = len(self.loop_old_stack)
+        try:
+            self._while_body(s, L, ordinal)
+        finally:
+            del self.loop_old_stack[depth_los - 1:]
+
+    def _while_body(self, s, L, ordinal):
         self.check_inv(L, 'entry', ordinal)
         self.havoc_for_loop(s.body + [ast.Expr(value=s.test)], L)
         self.check_inv(L, 'assume', ordinal, assume_only=True)
